@@ -69,6 +69,19 @@ fn symdiff<T: MapType>(a: &M, b: &M) -> String {
 
 type Calls = Rc<RefCell<Vec<String>>>;
 
+thread_local! {
+    /// map type token ended in '!': the input variables never cut off, so the operator recomputes in every
+    /// observed round, also when the new input equals the previous one (empty diff)
+    static NOCUT: std::cell::Cell<bool> = std::cell::Cell::new(false);
+}
+fn input_var<T: Value>(state: &IncrState, v: T) -> incremental::Var<T> {
+    let var = state.var(v);
+    if NOCUT.with(|c| c.get()) {
+        var.set_cutoff(incremental::Cutoff::Never);
+    }
+    var
+}
+
 /// Drive an operator output through the rounds. `set_round(i)` writes the inputs of round i.
 fn drive<O: Value>(
     state: &IncrState,
@@ -136,7 +149,7 @@ where
         })
         .collect();
     let state = IncrState::new();
-    let var = state.var(T::from_bt(&M::new()));
+    let var = input_var(&state, T::from_bt(&M::new()));
     let calls: Calls = Rc::new(RefCell::new(vec![]));
     let calls_ = calls.clone();
     let log = move |k: &i64| calls_.borrow_mut().push(k.to_string());
@@ -192,7 +205,7 @@ where
         })
         .collect();
     let state = IncrState::new();
-    let var = state.var(T::from_bt(&M::new()));
+    let var = input_var(&state, T::from_bt(&M::new()));
     let calls: Calls = Rc::new(RefCell::new(vec![]));
     let calls_ = calls.clone();
     let out: Incr<T::OutputMap<i64>> = if id == 0 {
@@ -226,7 +239,7 @@ fn run_uf<T: MapType>(id: i64, upd: bool, revert: bool, init: i64, toks: &[Strin
         })
         .collect();
     let state = IncrState::new();
-    let var = state.var(T::from_bt(&M::new()));
+    let var = input_var(&state, T::from_bt(&M::new()));
     let calls: Calls = Rc::new(RefCell::new(vec![]));
     let (c1, c2, c3) = (calls.clone(), calls.clone(), calls.clone());
     let add = move |acc: i64, k: &i64, v: &i64| {
@@ -275,8 +288,8 @@ fn parse_pairs(toks: &[String]) -> Vec<(bool, M, M)> {
 fn run_mg_bt(id: i64, toks: &[String]) -> String {
     let rounds = parse_pairs(toks);
     let state = IncrState::new();
-    let l = state.var(M::new());
-    let r = state.var(M::new());
+    let l = input_var(&state, M::new());
+    let r = input_var(&state, M::new());
     let calls: Calls = Rc::new(RefCell::new(vec![]));
     let calls_ = calls.clone();
     let out = l.incr_merge(&r.watch(), move |k, m| {
@@ -300,8 +313,8 @@ fn run_mg_bt(id: i64, toks: &[String]) -> String {
 fn run_mg_om(id: i64, toks: &[String]) -> String {
     let rounds = parse_pairs(toks);
     let state = IncrState::new();
-    let l = state.var(OrdMap::<i64, i64>::new());
-    let r = state.var(OrdMap::<i64, i64>::new());
+    let l = input_var(&state, OrdMap::<i64, i64>::new());
+    let r = input_var(&state, OrdMap::<i64, i64>::new());
     let calls: Calls = Rc::new(RefCell::new(vec![]));
     let calls_ = calls.clone();
     let out = l.incr_merge(&r.watch(), move |k, m| {
@@ -331,7 +344,7 @@ fn run_pt(id: i64, toks: &[String]) -> String {
         })
         .collect();
     let state = IncrState::new();
-    let var = state.var(OrdMap::<i64, i64>::new());
+    let var = input_var(&state, OrdMap::<i64, i64>::new());
     let calls: Calls = Rc::new(RefCell::new(vec![]));
     let calls_ = calls.clone();
     // the partition function is the only user function; which of add/remove/update invoked it is
@@ -356,7 +369,9 @@ fn handle(line: &str) -> String {
     if t.is_empty() {
         return String::new();
     }
-    let ty = t[0].as_str();
+    let nocut = t[0].ends_with('!');
+    NOCUT.with(|c| c.set(nocut));
+    let ty = t[0].trim_end_matches('!');
     let int = |s: &String| s.parse::<i64>().expect("int");
     match (t[1].as_str(), ty) {
         ("symdiff", "bt") => symdiff::<BTreeMap<i64, i64>>(&parse_map(&t[2]), &parse_map(&t[3])),
